@@ -23,7 +23,7 @@ RULE = ("cases = 1-3 agent types x up to 4 states x 0-6 agents with Integer and 
         ">= 2 agents with different values of a property; distinct by case")
 ASSUMPTIONS = [
     "all agents of one type carry the same property set (as agent factories produce)",
-    "only states that are non-empty at some recorded time are requested from run_scenarios (an always-empty state has no column)",
+    "at least one requested state is non-empty at some recorded time in some scenario of the call",
     "total and mean are compared with relative tolerance 1e-9, count/min/max exactly",
 ]
 
@@ -59,7 +59,9 @@ def _classes():
                     continue
                 if ch[1] == "state":
                     self.state = ch[2]
-                else:
+                elif ch[1] == "delete-self":
+                    self.model.delete_agent(self.id)
+                elif ch[1] == "prop":
                     self.set_property_value(ch[2], ch[3])
 
     class M(Model):
@@ -71,6 +73,12 @@ def _classes():
                 self.register_agent_factory(ty, lambda agent_id, model, properties: Ag(agent_id, model, properties))
 
         def end_round(self, time, sim_round, step):
+            for ch in self.script.get(str(self.gcount), []):
+                if ch[1] == "delete-at-end" and self.agent(ch[0]) is not None:
+                    self.delete_agent(ch[0])
+            # the population as it is when the step ends (statistics are recorded right after this callback)
+            self.__dict__.setdefault("snaps", {})[time] = [[a.agent_type, a.state, {k: v["value"] for k, v in a.properties.items()
+                                                                                     if v["type"] in ("Integer", "Double")}] for a in self.agents]
             self.__dict__["gcount"] = self.gcount + 1
 
     return M, Ag, Col
@@ -103,6 +111,22 @@ def _close(a, b):
     return abs(float(a) - float(b)) <= 1e-9 * max(1.0, abs(float(a)), abs(float(b)))
 
 
+def _variant(agents, which):
+    """other populations derived from the generated one (different sizes and values)"""
+    if which == 0:
+        return agents
+    out = []
+    src = agents[::-1][:max(1, (len(agents) + 1) // 2)] if which == 1 else agents[:max(1, len(agents) - 1)]
+    for ag in src:
+        ag2 = json.loads(json.dumps(ag))
+        ag2["props"]["x"][1] = ag2["props"]["x"][1] + which
+        ag2["props"]["y"][1] = ag2["props"]["y"][1] * 2 + which
+        out.append(ag2)
+    if not any(a_["type"] == "A" for a_ in out):
+        out.append(json.loads(json.dumps(next(a_ for a_ in agents if a_["type"] == "A"))))
+    return out
+
+
 def check_case(case):
     from BPTK_Py import SimultaneousScheduler, bptk
 
@@ -111,114 +135,126 @@ def check_case(case):
     info = {"nontrivial": False}
     b = bptk()
     try:
-        base = M(name="c13", scheduler=SimultaneousScheduler(), data_collector=Col())
-        base.instantiate_model()
-        base.__dict__["script"] = case["script"]
         nsteps = case["nsteps"]
-        b.register_scenario_manager({"smS": {"type": "abm", "model": base, "scenarios": {
-            "sc": {"runspecs": {"starttime": 1, "stoptime": nsteps, "dt": 1}, "properties": {}, "agents": _agents_config(case)}}}})
-        m = b.get_scenario("smS", "sc")
+        targets = [("smS", "sc", 0)]
+        if case.get("multi", False):
+            targets += [("smS", "sc2", 1), ("smT", "sc", 2)]
+        managers = sorted(set(t[0] for t in targets))
+        for mgr in managers:
+            base = M(name="c13", scheduler=SimultaneousScheduler(), data_collector=Col())
+            base.instantiate_model()
+            base.__dict__["script"] = case["script"]
+            scen = {}
+            for (m_, s_, which) in targets:
+                if m_ == mgr:
+                    scen[s_] = {"runspecs": {"starttime": 1, "stoptime": nsteps, "dt": 1}, "properties": {},
+                                "agents": _agents_config({"agents": _variant(case["agents"], which)})}
+            b.register_scenario_manager({mgr: {"type": "abm", "model": base, "scenarios": scen}})
         sel = case["select"]
         agents, props, ptypes = sel["agents"], sel["props"], sel["ptypes"]
-
-        def run(fmt, states):
-            kw = dict(scenarios=["sc"], scenario_managers=["smS"], agents=agents, agent_states=states, return_format=fmt)
-            if props:
-                kw.update(agent_properties=props, agent_property_types=ptypes)
-            return b.run_scenarios(**kw)
-
-        # first run determines which states ever occur (run happens once; later calls reuse the statistics)
-        try:
-            m.run()
-        except Exception as e:
-            vs.append(Violation("crash:run:" + type(e).__name__, repr(e)))
-            return info, vs
-        snaps = m.data_collector.snaps
-        stats = m.statistics()
-        times = list(snaps.keys())
-        # --- Model.statistics() against the snapshots -------------------------
-        if list(stats.keys()) != times:
-            vs.append(Violation("statistics:times", "statistics keys %r, snapshots at %r" % (list(stats.keys()), times)))
-        for t in times:
-            snap = snaps[t]
-            cells = sorted(set((a[0], a[1]) for a in snap))
-            got_cells = sorted((ty, stt) for ty, d in stats.get(t, {}).items() for stt in d)
-            if cells != got_cells:
-                vs.append(Violation("statistics:cells", "t=%r cells %r expected %r" % (t, got_cells, cells)))
-                continue
-            for ty, stt in cells:
-                rec = stats[t][ty][stt]
-                if rec["count"] != _agg(snap, ty, stt):
-                    vs.append(Violation("statistics:count", "t=%r %s/%s count %r expected %r" % (t, ty, stt, rec["count"], _agg(snap, ty, stt))))
-                pnames = sorted(set(k for a in snap if a[0] == ty and a[1] == stt for k in a[2]))
-                for p in pnames:
-                    want = _agg(snap, ty, stt, p)
-                    got = rec.get(p)
-                    if got is None:
-                        vs.append(Violation("statistics:missing-property", "t=%r %s/%s/%s missing" % (t, ty, stt, p)))
-                        continue
-                    xs = [a[2][p] for a in snap if a[0] == ty and a[1] == stt]
-                    if len(set(xs)) > 1:
-                        info["nontrivial"] = True
-                    for k in PTYPES:
-                        ok = (got[k] == want[k]) if k in ("max", "min") else _close(got[k], want[k])
-                        if not ok:
-                            vs.append(Violation("statistics:" + k, "t=%r %s/%s/%s %s=%r expected %r (values %r)" % (t, ty, stt, p, k, got[k], want[k], xs)))
+        snaps_of = {}
+        for (m_, s_, which) in targets:
+            m = b.get_scenario(m_, s_)
+            try:
+                m.run()
+            except Exception as e:
+                vs.append(Violation("crash:run:" + type(e).__name__, repr(e)))
+                return info, vs
+            snaps = m.__dict__.get("snaps", {})
+            snaps_of[(m_, s_)] = snaps
+            stats = m.statistics()
+            times = list(snaps.keys())
+            tag = "" if (m_, s_) == ("smS", "sc") else ":%s/%s" % (m_, s_)
+            if list(stats.keys()) != times:
+                vs.append(Violation("statistics:times" + tag, "%s/%s: statistics keys %r, snapshots at %r" % (m_, s_, list(stats.keys()), times)))
+            for t in times:
+                snap = snaps[t]
+                cells = sorted(set((a[0], a[1]) for a in snap))
+                got_cells = sorted((ty, stt) for ty, d in stats.get(t, {}).items() for stt in d)
+                if cells != got_cells:
+                    vs.append(Violation("statistics:cells" + tag, "%s/%s t=%r cells %r expected %r" % (m_, s_, t, got_cells, cells)))
+                    continue
+                for ty, stt in cells:
+                    rec = stats[t][ty][stt]
+                    if rec["count"] != _agg(snap, ty, stt):
+                        vs.append(Violation("statistics:count" + tag, "%s/%s t=%r %s/%s count %r expected %r" % (m_, s_, t, ty, stt, rec["count"], _agg(snap, ty, stt))))
+                    pnames = sorted(set(k for a in snap if a[0] == ty and a[1] == stt for k in a[2]))
+                    for p in pnames:
+                        want = _agg(snap, ty, stt, p)
+                        got = rec.get(p)
+                        if got is None:
+                            vs.append(Violation("statistics:missing-property" + tag, "t=%r %s/%s/%s missing" % (t, ty, stt, p)))
+                            continue
+                        xs = [a[2][p] for a in snap if a[0] == ty and a[1] == stt]
+                        if len(set(xs)) > 1:
+                            info["nontrivial"] = True
+                        for k in PTYPES:
+                            ok = (got[k] == want[k]) if k in ("max", "min") else _close(got[k], want[k])
+                            if not ok:
+                                vs.append(Violation("statistics:" + k + tag, "%s/%s t=%r %s/%s/%s %s=%r expected %r (values %r)" % (m_, s_, t, ty, stt, p, k, got[k], want[k], xs)))
         if vs:
             return info, _dedupe(vs)
-        # --- run_scenarios in the three formats -------------------------------
-        occurring = {ty: sorted(set(a[1] for t in times for a in snaps[t] if a[0] == ty)) for ty in agents}
-        states = [s for s in sel["states"] if all(s in occurring[ty] for ty in agents)]
+        # --- run_scenarios in the three formats (all targets in one call) -------
+        def occurring(key, ty):
+            return sorted(set(a[1] for t in snaps_of[key] for a in snaps_of[key][t] if a[0] == ty))
+        states = [s_ for s_ in sel["states"] if any(s_ in occurring((m_, sc_), ty) for (m_, sc_, w_) in targets for ty in agents)]
         info["states"] = states
-        if not states or any(not occurring[ty] for ty in agents):
+        if not states:
             info["formats"] = "skipped"
             return info, vs
         for fmt in ("df", "dict", "json"):
+            kw = dict(scenarios=sorted(set(t[1] for t in targets)), scenario_managers=managers, agents=agents, agent_states=states, return_format=fmt)
+            if props:
+                kw.update(agent_properties=props, agent_property_types=ptypes)
             try:
-                res = run(fmt, states)
+                res = b.run_scenarios(**kw)
             except Exception as e:
-                vs.append(Violation("crash:run_scenarios:%s:%s" % (fmt, type(e).__name__), "%r select=%r states=%r" % (e, sel, states)))
+                vs.append(Violation("crash:run_scenarios:%s:%s" % (fmt, type(e).__name__), "%r select=%r states=%r targets=%r" % (e, sel, states, targets)))
                 continue
             if res is None:
                 vs.append(Violation("format:%s:none" % fmt, "run_scenarios returned None for select=%r states=%r" % (sel, states)))
                 continue
             if fmt == "json":
                 res = json.loads(res)
-            for ty in agents:
-                for stt in states:
-                    for t in times:
-                        snap = snaps[t]
-                        if not props:
-                            want = _agg(snap, ty, stt)
-                            try:
-                                if fmt == "df":
-                                    got = res["smS_sc_%s_%s" % (ty, stt)][t]
-                                elif fmt == "dict":
-                                    got = res["smS"]["sc"]["agents"][ty][stt][t]
-                                else:
-                                    got = res["smS"]["sc"]["agents"][ty][stt][str(t)]
-                            except Exception as e:
-                                vs.append(Violation("format:%s:count-missing" % fmt, "%s/%s t=%r: %r" % (ty, stt, t, e)))
-                                continue
-                            if float(got) != float(want):
-                                vs.append(Violation("format:%s:count" % fmt, "%s/%s t=%r got %r expected %r" % (ty, stt, t, got, want)))
-                        else:
-                            for p in props:
-                                want_all = _agg(snap, ty, stt, p)
-                                for k in ptypes:
-                                    want = 0 if want_all is None else want_all[k]
-                                    try:
-                                        if fmt == "df":
-                                            got = res["smS_sc_%s_%s_%s_%s" % (ty, stt, p, k)][t]
-                                        elif fmt == "dict":
-                                            got = res["smS"]["sc"]["agents"][ty][stt]["properties"][p][k][t]
-                                        else:
-                                            got = res["smS"]["sc"]["agents"][ty][stt]["properties"][p][k][str(t)]
-                                    except Exception as e:
-                                        vs.append(Violation("format:%s:property-missing" % fmt, "%s/%s/%s/%s t=%r: %r" % (ty, stt, p, k, t, e)))
-                                        continue
-                                    if not _close(got, want):
-                                        vs.append(Violation("format:%s:%s" % (fmt, k), "%s/%s/%s t=%r got %r expected %r" % (ty, stt, p, t, got, want)))
+            for (m_, sc_, w_) in targets:
+                snaps = snaps_of[(m_, sc_)]
+                tag = "" if (m_, sc_) == ("smS", "sc") else ":%s/%s" % (m_, sc_)
+                for ty in agents:
+                    occ = occurring((m_, sc_), ty)
+                    for stt in states:
+                        for t in snaps:
+                            snap = snaps[t]
+                            if not props:
+                                want = _agg(snap, ty, stt)
+                                try:
+                                    if fmt == "df":
+                                        got = res["%s_%s_%s_%s" % (m_, sc_, ty, stt)][t]
+                                    elif fmt == "dict":
+                                        got = res[m_][sc_]["agents"][ty][stt][t]
+                                    else:
+                                        got = res[m_][sc_]["agents"][ty][stt][str(t)]
+                                except Exception as e:
+                                    vs.append(Violation("format:%s:count-missing%s" % (fmt, tag), "%s/%s %s/%s t=%r: %r" % (m_, sc_, ty, stt, t, e)))
+                                    continue
+                                if not (float(got) == float(want)):
+                                    vs.append(Violation("format:%s:count%s" % (fmt, tag), "%s/%s %s/%s t=%r got %r expected %r" % (m_, sc_, ty, stt, t, got, want)))
+                            else:
+                                for p in props:
+                                    want_all = _agg(snap, ty, stt, p)
+                                    for k in ptypes:
+                                        want = 0 if want_all is None else want_all[k]
+                                        try:
+                                            if fmt == "df":
+                                                got = res["%s_%s_%s_%s_%s_%s" % (m_, sc_, ty, stt, p, k)][t]
+                                            elif fmt == "dict":
+                                                got = res[m_][sc_]["agents"][ty][stt]["properties"][p][k][t]
+                                            else:
+                                                got = res[m_][sc_]["agents"][ty][stt]["properties"][p][k][str(t)]
+                                        except Exception as e:
+                                            vs.append(Violation("format:%s:property-missing%s" % (fmt, tag), "%s/%s %s/%s/%s/%s t=%r: %r" % (m_, sc_, ty, stt, p, k, t, e)))
+                                            continue
+                                        if not _close(got, want):
+                                            vs.append(Violation("format:%s:%s%s" % (fmt, k, tag), "%s/%s %s/%s/%s t=%r got %r expected %r" % (m_, sc_, ty, stt, p, t, got, want)))
     finally:
         b.destroy()
     return info, _dedupe(vs)
@@ -234,7 +270,8 @@ def _dedupe(vs):
 def _body(ctx):
     def body(case):
         info, vs = check_case(case)
-        labels = ["props-selected" if case["select"]["props"] else "counts-only"]
+        labels = ["props-selected" if case["select"]["props"] else "counts-only"] + (["three-scenarios-two-managers"] if case.get("multi") else []) + \
+            (["with-deletion"] if any(ch[1].startswith("delete") for v_ in case["script"].values() for ch in v_) else [])
         if info.get("formats") == "skipped":
             labels.append("formats-skipped(no common state)")
         ctx.case(case, nontrivial=info["nontrivial"], labels=labels, key=case)
@@ -264,6 +301,7 @@ def case_strategy():
             g = draw(st.integers(0, nsteps - 1))
             aid = draw(st.integers(0, max(0, len(agents) - 1)))
             ch = draw(st.one_of(
+                st.tuples(st.just(aid), st.sampled_from(["delete-self", "delete-at-end"])).map(list),
                 st.tuples(st.just(aid), st.just("state"), st.sampled_from(states)).map(list),
                 st.tuples(st.just(aid), st.just("prop"), st.just("x"), st.sampled_from(NUMS_I)).map(list),
                 st.tuples(st.just(aid), st.just("prop"), st.just("y"), st.sampled_from(NUMS_D)).map(list)))
@@ -273,7 +311,7 @@ def case_strategy():
         sel_states = draw(st.lists(st.sampled_from(states), min_size=1, max_size=nstates, unique=True))
         sel_props = draw(st.lists(st.sampled_from(["x", "y"]), min_size=0, max_size=2, unique=True))
         sel_pt = draw(st.lists(st.sampled_from(PTYPES), min_size=1, max_size=4, unique=True))
-        return {"agents": agents, "nsteps": nsteps, "script": script,
+        return {"multi": draw(st.booleans()), "agents": agents, "nsteps": nsteps, "script": script,
                 "select": {"agents": sel_agents, "states": sel_states, "props": sel_props, "ptypes": sel_pt}}
     return build()
 
